@@ -52,8 +52,19 @@ def _grid(rng: Rng, m, unit=False):
     return rng.grid(m, lo=lo, scale=scale)
 
 
+LAYOUTS = ["C", "C", "F", "T", "strided", "rolled"]
+
+
 def _coef(rng: Rng, N, K):
-    kind = rng.choice(["rand", "rand", "rand", "centred", "const", "zero_row", "small"])
+    kind = rng.choice(["rand", "rand", "rand", "centred", "const", "zero_row", "small", "offset", "offset", "tiny", "huge"])
+    if kind == "offset":
+        # huge column means, tiny spread (exact dyadics): algebraically equal but fragile formulas lose everything here
+        lev = [Fraction(2) ** rng.choice([16, 20, 24]) * rng.choice([1, 3, -5]) for _ in range(K)]
+        C = [[lev[k] + rng.dyadic(-1, 1, 6) for k in range(K)] for _ in range(N)]
+        return C, kind
+    if kind in ("tiny", "huge"):
+        f = Fraction(2) ** (-20 if kind == "tiny" else 20)
+        return [[f * x for x in rng.dyadics(K, -6, 6, 3)] for _ in range(N)], kind
     if kind == "const":
         row = rng.dyadics(K, -4, 4, 3)
         C = [list(row) for _ in range(N)]
@@ -84,8 +95,12 @@ def gen_cases(rng: Rng, tier):
             K = rng.randint(1, 5)
             m = rng.randint(max(3, K + 1), 12)
             N = rng.choice([1, 2, 2, 3, 4, 5, 6, 7])
+            if k % 40 == 11:
+                # sizes just above powers of two / typical block sizes, everything else tiny
+                N, K = rng.choice([33, 65, 129] if tier == "quick" else [33, 65, 129, 201, 257]), rng.randint(1, 2)
+                m = rng.randint(max(3, K + 1), 4)
             C, ck = _coef(rng, N, K)
-            case = dict(kind=kind, fam=fam, K=K, t=[rs(x) for x in _grid(rng, m, unit=(fam in ("wiener",)))],
+            case = dict(kind=kind, lay=rng.choice(LAYOUTS), dtype=rng.choice(["float", "float", "float", "int"]), fam=fam, K=K, t=[rs(x) for x in _grid(rng, m, unit=(fam in ("wiener",)))],
                         C=_S(C), ck=ck, w0=rs(rng.choice([Fraction(2), Fraction(1, 4), Fraction(9)])),
                         degree=rng.randint(1, 3), stand=rng.random() < 0.3,
                         normalized=(rng.random() < 0.25 and m >= 5), intercept=rng.random() >= 0.2)
@@ -101,7 +116,7 @@ def gen_cases(rng: Rng, tier):
                 m1, m2 = rng.randint(max(3, K1 + 1), 5), rng.randint(max(3, K2 + 1), 6)
             N = rng.choice([1, 2, 3, 4, 5])
             C, ck = _coef(rng, N, K1 * K2)
-            case = dict(kind=kind, fams=list(fams), K1=K1, K2=K2, t1=[rs(x) for x in _grid(rng, m1, True)],
+            case = dict(kind=kind, lay=rng.choice(LAYOUTS), fams=list(fams), K1=K1, K2=K2, t1=[rs(x) for x in _grid(rng, m1, True)],
                         t2=[rs(x) for x in _grid(rng, m2, True)], C=_S(C), ck=ck, degree=rng.randint(1, 2),
                         w0=rs(rng.choice([Fraction(2), Fraction(1, 4)])))
             for d, (f, K_, m_) in enumerate(zip(fams, (K1, K2), (m1, m2))):
@@ -111,9 +126,12 @@ def gen_cases(rng: Rng, tier):
         elif kind == "tolong":
             sub = rng.choice(["dense1", "dense2", "irr1", "irr2"])
             if sub == "dense1":
-                yield dict(kind=kind, sub=sub, n=rng.randint(1, 6), shape=[rng.randint(1, 7)], reindex=rng.random() < 0.5)
+                big = rng.random() < 0.15
+                yield dict(kind=kind, sub=sub, n=rng.randint(1, 6), shape=[rng.choice([257, 513, 700]) if big else rng.randint(1, 7)],
+                           reindex=rng.random() < 0.5, lay=rng.choice(LAYOUTS), dtype=rng.choice(["float", "int", "float32"]))
             elif sub == "dense2":
-                yield dict(kind=kind, sub=sub, n=rng.randint(1, 4), shape=[rng.randint(1, 4), rng.randint(1, 5)], reindex=False)
+                yield dict(kind=kind, sub=sub, n=rng.randint(1, 4), shape=[rng.randint(1, 4), rng.randint(1, 5)], reindex=False,
+                           lay=rng.choice(LAYOUTS), dtype=rng.choice(["float", "int", "float32"]))
             else:
                 nobs = rng.randint(1, 5)
                 shapes, masks = [], []
@@ -128,7 +146,7 @@ def gen_cases(rng: Rng, tier):
                     shapes.append(sh)
                     masks.append(mk)
                 yield dict(kind=kind, sub=sub, shapes=shapes, masks=masks, reindex=rng.random() < 0.5,
-                           labels=rng.choice(["range", "range", "gaps"]))
+                           labels=rng.choice(["range", "range", "gaps"]), lay=rng.choice(LAYOUTS))
         elif kind == "csv":
             ncol = rng.randint(1, 7)
             nrow = rng.randint(1, 6)
@@ -173,7 +191,7 @@ def gen_cases(rng: Rng, tier):
                 N = rng.randint(1, 4)
                 sub = rng.choice(["rand", "inspace", "inspace", "smoothish"])
                 pen = rng.choice([0, 0, Fraction(1, 2), 1, 4]) if sub != "inspace" else 0
-                case = dict(kind=kind, dim=1, nseg=nseg, deg=deg, t=[rs(x) for x in _grid(rng, m)], N=N, sub=sub,
+                case = dict(kind=kind, lay=rng.choice(LAYOUTS), dim=1, nseg=nseg, deg=deg, t=[rs(x) for x in _grid(rng, m)], N=N, sub=sub,
                             pen=rs(pen), Y=_S([rng.dyadics(m, -4, 4, 3) for _ in range(N)]),
                             G=_S([rng.dyadics(nseg + deg, -3, 3, 2) for _ in range(N)]), pts=rng.random() < 0.3)
                 if rng.random() < 0.5:
@@ -197,7 +215,7 @@ def gen_cases(rng: Rng, tier):
                 N = rng.randint(1, 2)
                 sub = rng.choice(["rand", "inspace"])
                 pen = rng.choice([0, 1, Fraction(1, 2)]) if sub != "inspace" else 0
-                case = dict(kind=kind, dim=2, nseg=nseg, deg=deg, t1=[rs(x) for x in _grid(rng, m1)],
+                case = dict(kind=kind, lay=rng.choice(LAYOUTS), dim=2, nseg=nseg, deg=deg, t1=[rs(x) for x in _grid(rng, m1)],
                             t2=[rs(x) for x in _grid(rng, m2)], N=N, sub=sub, pen=rs(pen),
                             Y=_S([rng.dyadics(m1 * m2, -4, 4, 3) for _ in range(N)]),
                             G=_S([rng.dyadics((nseg + deg) ** 2, -3, 3, 2) for _ in range(N)]))
@@ -237,6 +255,23 @@ def _lst(a):
     return np.asarray(a, dtype=float).tolist()
 
 
+def _lay(a, how):
+    """The same array in another memory layout (equal values, equal shape): Fortran order, a transposed
+    buffer, a strided view of a larger buffer, a moveaxis view.  Methods must not depend on it."""
+    a = np.array(a)
+    if how == "F":
+        return np.asfortranarray(a)
+    if how == "T" and a.ndim >= 2:
+        return np.ascontiguousarray(a.T).T
+    if how == "strided" and a.ndim >= 1 and a.shape[-1] > 0:
+        big = np.zeros(a.shape[:-1] + (2 * a.shape[-1],), dtype=a.dtype)
+        big[..., ::2] = a
+        return big[..., ::2]
+    if how == "rolled" and a.ndim >= 2:
+        return np.moveaxis(np.ascontiguousarray(np.moveaxis(a, 0, -1)), -1, 0)
+    return a
+
+
 def _try(out, key, fn):
     try:
         with warnings.catch_warnings():
@@ -272,6 +307,7 @@ def _run_basis(case):
     out = {}
     two = case["kind"] == "basis2"
     C = np.array(fl(_Fm(case["C"])), dtype=float)
+    lay = case.get("lay", "C")
     if not two:
         t = np.array(fl(_Fv(case["t"])))
         arg = DenseArgvals({"input_dim_0": t})
@@ -323,6 +359,12 @@ def _run_basis(case):
     out["phi"] = _exact(basis.values)
     out["phi_shape"] = list(basis.values.shape)
     N = C.shape[0]
+    if case.get("dtype") == "int" and np.all(C == np.round(C)) and np.abs(C).max() < 2 ** 52:
+        C = C.astype(np.int64)
+    C = _lay(C, lay)
+    C0 = np.array(C, dtype=float, order="C", copy=True)
+    if case.get("fam") == "given" or "given" in case.get("fams", []):
+        basis.values = DenseValues(_lay(np.asarray(basis.values), lay))
     bf = BasisFunctionalData(basis, C)
     g = bf.to_grid()
     out["grid"] = _lst(g.values.reshape(N, -1))
@@ -369,7 +411,7 @@ def _run_basis(case):
     _try(out, "nsq_b_again", lambda: _lst(bf.norm(squared=True)))
     _try(out, "ip_b_again", lambda: _lst(bf.inner_product()))
     _try(out, "mean_g_again", lambda: _lst(g.mean().values.reshape(1, -1)))
-    out["coef_after"] = bool(np.array_equal(bf.coefficients, C))
+    out["coef_after"] = bool(np.array_equal(np.asarray(bf.coefficients, dtype=float), C0))
     C2 = C[::-1] * 2.0 + 1.0
     try:
         bf.coefficients = C2
@@ -416,7 +458,9 @@ def _run_tolong(case):
     if sub.startswith("dense"):
         n, sh = case["n"], case["shape"]
         ax = axes(sh, 0)
-        vals = np.arange(n * int(np.prod(sh)), dtype=float).reshape((n, *sh))
+        dt = dict(float=float, int=np.int64, float32=np.float32).get(case.get("dtype", "float"), float)
+        vals = _lay(np.arange(n * int(np.prod(sh)), dtype=dt).reshape((n, *sh)), case.get("lay", "C"))
+        out["contiguous"] = bool(vals.flags["C_CONTIGUOUS"])
         try:
             fd = DenseFunctionalData(DenseArgvals({f"input_dim_{d}": a for d, a in enumerate(ax)}), DenseValues(vals))
             df = fd.to_long(reindex=case["reindex"])
@@ -432,7 +476,7 @@ def _run_tolong(case):
         av, vv = {}, {}
         for lab, sh, mk in zip(labels, shapes, masks):
             ax = axes(sh, 0)
-            v = np.array([float(p) if b else np.nan for p, b in enumerate(mk)]).reshape(sh)
+            v = _lay(np.array([float(p) if b else np.nan for p, b in enumerate(mk)]).reshape(sh), case.get("lay", "C"))
             av[lab] = DenseArgvals({f"input_dim_{d}": a for d, a in enumerate(ax)})
             vv[lab] = v
         try:
@@ -514,7 +558,7 @@ def _run_ps(case):
             Y = np.array(fl(_Fm(case["Y"])))
             if case["sub"] == "smoothish":
                 Y = np.cumsum(Y, axis=1) / 4
-        fd = DenseFunctionalData(DenseArgvals({"input_dim_0": t}), DenseValues(Y))
+        fd = DenseFunctionalData(DenseArgvals({"input_dim_0": t}), DenseValues(_lay(Y, case.get("lay", "C"))))
         penalty = (pen,)
         out["rank"] = int(np.linalg.matrix_rank(B))
         out["cond"] = float(np.linalg.cond(B @ B.T)) if pen == 0 else 0.0
@@ -528,7 +572,7 @@ def _run_ps(case):
             out["gamma"] = Gm.tolist()
         else:
             Y = np.array(fl(_Fm(case["Y"]))).reshape(-1, len(t1), len(t2))
-        fd = DenseFunctionalData(DenseArgvals({"input_dim_0": t1, "input_dim_1": t2}), DenseValues(Y))
+        fd = DenseFunctionalData(DenseArgvals({"input_dim_0": t1, "input_dim_1": t2}), DenseValues(_lay(Y, case.get("lay", "C"))))
         penalty = (pen, pen)
         out["rank"] = int(min(np.linalg.matrix_rank(B1), np.linalg.matrix_rank(B2)))
         BB = np.kron(B1, B2)
@@ -672,52 +716,61 @@ def compare(case, impl, model):
     if kind in ("basis1", "basis2"):
         C = np.array([[float(F(x)) for x in r] for r in impl.get("C_used", case["C"])])
         P = np.array([[float(F(x)) for x in r] for r in impl["phi"]])
-        lin = max(1.0, float(np.abs(C).sum(axis=1).max()) * float(np.abs(P).max()))
+        # scales conditioned on the data: `lin` = size of the evaluated curves, `linc` = size of the CENTRED
+        # curves; with δ = 512·eps·lin (what two-pass centring in floats can lose) a centred value is accepted
+        # within rtol·linc + δ and a centred product within rtol·linc² + 2·linc·δ + δ², never relative to lin²
+        tiny = 1e-300
+        lin = max(tiny, float(np.abs(C).sum(axis=1).max()) * float(np.abs(P).max()))
+        Cc = C - C.mean(axis=0)
+        linc = max(tiny, float(np.abs(Cc).sum(axis=1).max()) * float(np.abs(P).max()))
+        dlt = 512 * 2.3e-16 * lin                   # what centring in floats can lose on a value of size lin
+        cen1 = linc + dlt / 1e-8                    # centred, linear
+        cen2 = linc * linc + (2 * linc * dlt + dlt * dlt) / 1e-8   # centred, quadratic (covariances)
         if kind == "basis1":
             t = np.array(fl(_Fv(case["t"])))
-            span = max(float(t[-1] - t[0]), 1.0)
+            span = max(float(t[-1] - t[0]), tiny)
             quad = lin * lin * span
-            gs = max(1.0, float(np.abs(P).max()) ** 2 * span)
+            gs = max(tiny, float(np.abs(P).max()) ** 2 * span)
             ds += _cmp_mat("to_grid", impl["grid"], o[0], lin)
             ds += _cmp_mat("mean (coefficient route)", impl["mean_b"], o[1], lin)
-            ds += _cmp_mat("center (coefficient route)", impl["center_b"], o[2], lin)
+            ds += _cmp_mat("center (coefficient route)", impl["center_b"], o[2], cen1, 1e-8)
             ds += _cmp_mat("mean (grid route)", impl["mean_g"], o[1], lin)
-            ds += _cmp_mat("center (grid route)", impl["center_g"], o[2], lin)
+            ds += _cmp_mat("center (grid route)", impl["center_g"], o[2], cen1, 1e-8)
             ds += _cmp_mat("Basis.inner_product", impl["G"], o[3], gs)
             if not isinstance(impl["ip_b"], str):
                 d0 = _cmp_mat("inner_product (coefficient route)", impl["ip_b"], o[4], quad, 1e-8)
                 if d0 and not _cmp_mat("ip", impl["ip_b"], o[5], quad, 1e-8):
                     d0 = []  # the code centres (proposed repair applied): accepted, the oracle decides
                 ds += d0
-                ds += _cmp_mat("inner_product of centred coefficients", impl["ip_bc"], o[5], quad, 1e-8)
+                ds += _cmp_mat("inner_product of centred coefficients", impl["ip_bc"], o[5], cen2 * span, 1e-8)
                 diag = ";".join(r.split(",")[i] for i, r in enumerate(o[4].split(";")))
                 ds += _cmp_mat("norm² (coefficient route)", impl["nsq_b"], diag.replace(";", ","), quad, 1e-8)
-            ds += _cmp_mat("inner_product (grid route)", impl["ip_g"], o[6], quad)
+            ds += _cmp_mat("inner_product (grid route)", impl["ip_g"], o[6], cen2 * span, 1e-8)
             ds += _cmp_mat("norm² (grid route)", impl["nsq_g"], o[7], quad)
             N = len(C)
-            ds += _cmp_mat("covariance (coefficient route)", impl["cov_b"], o[8], lin * lin, 1e-8)
+            ds += _cmp_mat("covariance (coefficient route)", impl["cov_b"], o[8], cen2, 1e-8)
             if N >= 2:
-                ds += _cmp_mat("covariance (grid route)", impl["cov_g"], o[9], lin * lin)
+                ds += _cmp_mat("covariance (grid route)", impl["cov_g"], o[9], cen2, 1e-8)
             wb, wg, pv = o[10].split(" ")
             if isinstance(impl["rescale_b"], dict):
-                if not close(impl["rescale_b"]["w"], F(wb), quad, 1e-8):
+                if not close(impl["rescale_b"]["w"], F(wb), cen2 * span, 1e-8):
                     ds.append(f"rescale weight (coefficient route): impl {impl['rescale_b']['w']!r} vs exact {float(F(wb))!r}")
             else:
                 ds.append(f"rescale (coefficient route): {impl['rescale_b']}")
             if isinstance(impl["rescale_g"], dict):
-                if not close(impl["rescale_g"]["w"], F(wg), quad, 1e-9):
+                if not close(impl["rescale_g"]["w"], F(wg), cen2 * span, 1e-8):
                     ds.append(f"rescale weight (grid route): impl {impl['rescale_g']['w']!r} vs exact {float(F(wg))!r}")
         else:
             t1, t2 = np.array(fl(_Fv(case["t1"]))), np.array(fl(_Fv(case["t2"])))
-            span = max(float((t1[-1] - t1[0]) * (t2[-1] - t2[0])), 1.0)
+            span = max(float((t1[-1] - t1[0]) * (t2[-1] - t2[0])), tiny)
             quad = lin * lin * span
-            gs = max(1.0, float(np.abs(P).max()) ** 2 * span)
-            ds += _cmp_mat("tensor basis (np.kron + reshape)", impl["phi"] and [[float(F(x)) for x in r] for r in impl["phi"]], o[0], max(1.0, float(np.abs(P).max())))
+            gs = max(tiny, float(np.abs(P).max()) ** 2 * span)
+            ds += _cmp_mat("tensor basis (np.kron + reshape)", impl["phi"] and [[float(F(x)) for x in r] for r in impl["phi"]], o[0], max(tiny, float(np.abs(P).max())))
             ds += _cmp_mat("to_grid", impl["grid"], o[1], lin)
             ds += _cmp_mat("mean (coefficient route)", impl["mean_b"], o[2], lin)
-            ds += _cmp_mat("center (coefficient route)", impl["center_b"], o[3], lin)
+            ds += _cmp_mat("center (coefficient route)", impl["center_b"], o[3], cen1, 1e-8)
             ds += _cmp_mat("mean (grid route)", impl["mean_g"], o[2], lin)
-            ds += _cmp_mat("center (grid route)", impl["center_g"], o[3], lin)
+            ds += _cmp_mat("center (grid route)", impl["center_g"], o[3], cen1, 1e-8)
             G0, ip0 = o[4].split(" ")
             _, ip1 = o[5].split(" ")
             ds += _cmp_mat("Basis.inner_product", impl["G"], G0, gs)
@@ -726,27 +779,27 @@ def compare(case, impl, model):
                 if d0 and not _cmp_mat("ip", impl["ip_b"], ip1, quad, 1e-8):
                     d0 = []
                 ds += d0
-                ds += _cmp_mat("inner_product of centred coefficients", impl["ip_bc"], ip1, quad, 1e-8)
+                ds += _cmp_mat("inner_product of centred coefficients", impl["ip_bc"], ip1, cen2 * span, 1e-8)
             nsq, gd = o[6].split(" ")
             ds += _cmp_mat("norm² (grid route)", impl["nsq_g"], nsq, quad)
-            ds += _cmp_mat("inner_product (grid route)", impl["ip_g"], gd, quad)
+            ds += _cmp_mat("inner_product (grid route)", impl["ip_g"], gd, cen2 * span, 1e-8)
             m1, m2 = len(t1), len(t2)
             if isinstance(impl["cov_b"], str):
                 # the unrepaired layout: incoherent with the argvals unless the grid is square
                 if not (o[9].startswith("error") and impl["cov_b"] == o[9]):
                     ds.append(f"2-D covariance: implementation {impl['cov_b']}, model (repaired layout) has a value")
             else:
-                d_new = _cmp_mat("2-D covariance layout", impl["cov_b"], o[7], lin * lin, 1e-8)
-                if d_new and not o[9].startswith("error") and not _cmp_mat("c", impl["cov_b"], o[9], lin * lin, 1e-8):
+                d_new = _cmp_mat("2-D covariance layout", impl["cov_b"], o[7], cen2, 1e-8)
+                if d_new and not o[9].startswith("error") and not _cmp_mat("c", impl["cov_b"], o[9], cen2, 1e-8):
                     d_new = []  # square grid: old and new layouts coincide
                 ds += d_new
             if o[7] != o[8]:
                 ds.append("model: covBasisGrid2 differs from covGrid2Spec on this input (theorem cov2_commutes broken?)")
             if isinstance(impl["rescale_b"], dict):
-                if not close(impl["rescale_b"]["w"], F(o[10]), quad, 1e-8):
+                if not close(impl["rescale_b"]["w"], F(o[10]), cen2 * span, 1e-8):
                     ds.append(f"2-D rescale weight: impl {impl['rescale_b']['w']!r} vs exact {float(F(o[10]))!r}")
             if isinstance(impl["rescale_g"], dict):
-                if not close(impl["rescale_g"]["w"], F(o[10]), quad, 1e-8):
+                if not close(impl["rescale_g"]["w"], F(o[10]), cen2 * span, 1e-8):
                     ds.append(f"2-D rescale weight (grid route): impl {impl['rescale_g']['w']!r} vs exact {float(F(o[10]))!r}")
     elif kind == "tolong":
         if "error" in impl:
@@ -802,7 +855,13 @@ def _oracle_basis(case, impl):
     C = np.array([[float(F(x)) for x in r] for r in impl.get("C_used", case["C"])])
     N = len(C)
     X = np.array(impl["grid"])
-    lin = _scale(X)
+    tiny = 1e-300
+    lin = max(tiny, float(np.abs(X).max()) if X.size else tiny)
+    Xc0 = X - X.mean(axis=0) if X.size else X
+    linc = max(tiny, float(np.abs(Xc0).max()) if X.size else tiny)
+    dlt = 512 * 2.3e-16 * lin
+    cen1 = linc + dlt / 1e-8                 # centred, linear (see compare)
+    cen2 = linc * linc + (2 * linc * dlt + dlt * dlt) / 1e-8   # centred, quadratic
     dims = "2-D" if two else "1-D"
 
     def bad(clause, entry, msg, causes=()):
@@ -826,14 +885,15 @@ def _oracle_basis(case, impl):
     if not impl.get("coef_after", True) or not impl.get("phi_after", True):
         bad("unchanged", "BasisFunctionalData.*", "a method changed the coefficients or the basis of its operand")
     pair("mean", "mean_b", "mean_g", lin, "BasisFunctionalData.mean")
-    pair("center", "center_b", "center_g", lin, "BasisFunctionalData.center")
+    pair("center", "center_b", "center_g", cen1, "BasisFunctionalData.center")
     nsq = impl.get("nsq_g")
-    quad = _scale(nsq if not isinstance(nsq, str) else 1.0)
+    quad = max(tiny, float(np.max(np.abs(nsq)))) if not isinstance(nsq, str) and len(nsq) else 1.0
+    cq = cen2 * quad / (lin * lin)           # centred quadratic, integrated (Gram matrices, weights)
     pair("norm", "nsq_b", "nsq_g", quad, "BasisFunctionalData.norm")
     pair("norm", "n_b", "n_g", math.sqrt(quad), "BasisFunctionalData.norm")
     zero_norm = (not isinstance(nsq, str)) and any(x <= 1e-300 for x in nsq)
     if not zero_norm:
-        pair("normalize", "normalize_b", "normalize_g", 1.0 + lin / max(math.sqrt(min(nsq)) if not isinstance(nsq, str) and min(nsq) > 0 else 1.0, 1e-6), "BasisFunctionalData.normalize", tol=1e-7)
+        pair("normalize", "normalize_b", "normalize_g", lin / math.sqrt(min(nsq)), "BasisFunctionalData.normalize", tol=1e-7)
     pair("norm_simpson", "nsq_b_simpson", "nsq_g_simpson", quad, "BasisFunctionalData.norm", tol=1e-7)
     for kb, kf in (("nsq_b_again", "nsq_b"), ("ip_b_again", "ip_b"), ("mean_g_again", "mean_g"),
                    ("hist_grid", "hist_grid_fresh"), ("hist_nsq", "hist_nsq_fresh"), ("hist_cov", "hist_cov_fresh"),
@@ -850,12 +910,12 @@ def _oracle_basis(case, impl):
     # inner products: coefficient route vs grid route (centred Gram matrix, no noise correction)
     b, g = impl.get("ip_b"), impl.get("ip_g")
     if not isinstance(b, str) and not isinstance(g, str):
-        if not _near(b, g, quad):
+        if not _near(b, g, cq):
             mean_curve = X.mean(axis=0)
             causes = ["uncentred"] if np.abs(mean_curve).max() > 1e-9 * lin else []
             bad("inner_product", "BasisFunctionalData.inner_product",
                 f"C G Cᵀ differs from to_grid().inner_product(noise_variance=0): max |Δ| = {np.abs(np.array(b) - np.array(g)).max():.3g}", causes)
-    pair("inner_product_centred", "ip_bc", "ip_g", quad, "BasisFunctionalData.inner_product")
+    pair("inner_product_centred", "ip_bc", "ip_g", cq, "BasisFunctionalData.inner_product")
     # rescaling
     for kb, kg in (("rescale_b", "rescale_g"), ("rescale_w_b", "rescale_w_g"), ("rescale_s_b", "rescale_s_g"),
                    ("rescale_b_simpson", "rescale_g_simpson")):
@@ -868,14 +928,15 @@ def _oracle_basis(case, impl):
             causes = ["diag_of_4d_array"] if (two and rb == "error:ValueError" and kb != "rescale_w_b") else []
             bad("rescale", "BasisFunctionalData.rescale", f"{kb} = {str(rb)[:50]} but {kg} = {str(rg)[:50]}", causes)
             continue
-        wsc = _scale(rg["w"])
         if not (math.isfinite(rb["w"]) and math.isfinite(rg["w"])):
             if math.isfinite(rb["w"]) != math.isfinite(rg["w"]):
                 bad("rescale", "BasisFunctionalData.rescale", f"weights {rb['w']} vs {rg['w']}")
             continue
-        if abs(rb["w"] - rg["w"]) > 1e-8 * wsc:
+        given = kb == "rescale_w_b"
+        wtol = 1e-12 * abs(rg["w"]) if given else 1e-8 * (abs(rg["w"]) + cq)
+        if abs(rb["w"] - rg["w"]) > wtol:
             bad("rescale", "BasisFunctionalData.rescale", f"weight from the coefficients {rb['w']!r} vs from the curves {rg['w']!r}")
-        elif rg["w"] > 1e-12 * quad and not _near(rb["v"], rg["v"], lin / math.sqrt(rg["w"]), 1e-7):
+        elif rg["w"] > 1e-6 * cq and not _near(rb["v"], rg["v"], lin / math.sqrt(rg["w"]), 1e-7):
             bad("rescale", "BasisFunctionalData.rescale", "rescaled curves differ between the two routes")
     # covariance
     cb = impl.get("cov_b")
@@ -888,7 +949,7 @@ def _oracle_basis(case, impl):
             m1, m2 = len(case["t1"]), len(case["t2"])
             Xc = (X - X.mean(axis=0)).reshape(N, m1, m2)
             ref = np.einsum("iab,icd->acbd", Xc, Xc) / N
-            if not _near(np.array(cb).reshape(-1), ref.reshape(-1), lin * lin):
+            if not _near(np.array(cb).reshape(-1), ref.reshape(-1), cen2):
                 bad("covariance", "BasisFunctionalData.covariance", "2-D covariance().to_grid() is not (1/n) Σ Xc(a,b) Xc(a',b') at [a, a', b, b']", ["covariance_layout_2d"])
             shp = impl.get("cov_b_shape")
             if isinstance(shp, list) and shp[1:] != [m1, m1, m2, m2]:
@@ -897,8 +958,14 @@ def _oracle_basis(case, impl):
             cg = impl.get("cov_g")
             if isinstance(cg, str):
                 bad("covariance", "BasisFunctionalData.covariance", f"grid covariance failed: {cg}")
-            elif not _near(np.array(cb), np.array(cg) * (N - 1) / N, lin * lin):
-                bad("covariance", "BasisFunctionalData.covariance", "covariance from the coefficients is not (n-1)/n × covariance of the curves")
+            elif not _near(np.array(cb), np.array(cg) * (N - 1) / N, cen2):
+                d_ = float(np.abs(np.array(cb) - np.array(cg) * (N - 1) / N).max())
+                bad("covariance", "BasisFunctionalData.covariance",
+                    f"covariance from the coefficients is not (n-1)/n × covariance of the curves: max |Δ| = {d_:.3g} (curves of size {lin:.3g}, centred {linc:.3g})")
+            if not isinstance(cb, str) and not two:
+                dg = np.diag(np.array(cb).reshape(X.shape[1], X.shape[1]))
+                if dg.size and dg.min() < -1e-8 * cen2:
+                    bad("covariance", "BasisFunctionalData.covariance", f"negative variance {dg.min():.3g} on the diagonal of the covariance")
     axes = [fl(_Fv(case["t1"])), fl(_Fv(case["t2"]))] if two else [fl(_Fv(case["t"]))]
     if impl.get("grid_argvals") != axes:
         bad("to_grid", "BasisFunctionalData.to_grid", "to_grid() is not on the sampling points of the basis")
@@ -913,8 +980,8 @@ def _oracle_basis(case, impl):
             bad("standardize", "BasisFunctionalData.standardize", f"standardize: {str(sb)[:50]} vs {str(sg)[:50]}", causes)
     elif N >= 2:
         sd = X.std(axis=0)
-        ok = sd > 1e-6 * lin
-        if ok.any() and not _near(np.array(sb)[:, ok], np.array(sg)[:, ok], math.sqrt(N) + 1.0, 1e-6):
+        ok = sd > max(1e-6 * linc, 1e-9 * lin)
+        if ok.any() and not _near(np.array(sb)[:, ok], np.array(sg)[:, ok], (math.sqrt(N) + 1.0) * (1.0 + 1e-6 * lin / sd[ok].min()), 1e-6):
             bad("standardize", "BasisFunctionalData.standardize", "standardised curves differ between the two routes")
     return vs
 
